@@ -63,7 +63,10 @@ ASSUMPTIONS = [
     "limit configurations: every resource 100 (unlimited), every resource at the largest single-job demand (1 unless a task asks for 2: "
     "fully serial when every task uses resource g), random 1-3 but never below that demand (a limit below a job's demand can never be "
     "met: C09's domain)",
-    "compared: result, CallNode / Argument pre-images, CallEdge (parent, child) pairs; not compared (allowed to differ by the property): "
+    "a tenth of the handle-free workflows are parked twins: f(t) and f(ident(t)) with limits=['r0'] next to 2-3 holder jobs on r0, "
+    "run under r0 = 100, 2, 3, 1 (both twins wait and are released one after the other / nobody waits)",
+    "compared: result, CallNode / Argument pre-images, CallEdge (parent, child) pairs, and per call hash the number of jobs and of "
+    "executed (non-cached) jobs; not compared (allowed to differ by the property): "
     "timestamps, job ids, call_order of edges, which duplicate job was marked cached",
 ]
 RULE = ("one case = one workflow run under one (limit configuration, completion order); runs of one workflow are compared with each other "
@@ -94,7 +97,13 @@ SIG_FORK = "C07-fork-thread-child-edge-timing"
 SIG_NEW = "C07-call-graph-differs-across-schedules"
 
 RES = ["r0", "r1", "g"]
-HARD_STOP = {"quick": 60, "thorough": 540}      # seconds since the start of the check after which no further schedule is started
+HARD_STOP = {"quick": 27, "thorough": 380}      # CPU seconds of this process after which no further schedule is started
+HARD_WALL = {"quick": 70, "thorough": 540}      # wall-clock safety net (loaded machine)
+
+
+def cpu():
+    import time
+    return time.process_time()
 T_SLOW, T_FORKMAIN = 3, 99
 
 
@@ -182,19 +191,37 @@ def gen_twin_body(rng, i, n):
     return ("add", e1, ("cond", ("call", ident, ("lit", 1)), e2, ("lit", 0)))
 
 
+def gen_parked_twins(rng):
+    """f(t) and f(ident(t)) with a `limits` option on f, next to holder jobs that occupy the resource: under limit 2 or 3 both
+    twins wait for the limit and are released one after the other (the second while the first is running); under limit 100
+    nobody waits.  Whether jobs waited must not show in the recording, nor in how many of the twins actually ran."""
+    nh = rng.choice([2, 2, 3])
+    t = rng.choice([("arg",), ("lit", 1), ("add", ("arg",), ("lit", 2))])
+    holders = [("call", 2, ("lit", 20 + k)) for k in range(nh)]
+    twins = ("add", ("call", 1, t), ("call", 1, ("call", 3, t)))
+    body = holders[0]
+    for hx in holders[1:]:
+        body = ("add", body, hx)
+    body = ("add", body, twins) if rng.random() < 0.7 else ("add", twins, body)
+    fbody = rng.choice([("add", ("arg",), ("lit", 10)), ("call", 3, ("add", ("arg",), ("lit", 5))), ("arg",)])
+    cfgs = [("unlimited", {r: 100 for r in RES})] + [("r0=%d" % k, dict({r: 100 for r in RES}, r0=k)) for k in (2, 3, 1)]
+    return Flow([body, fbody, ("arg",), ("arg",)], [None, ["r0"], ["r0"], None], rng.choice([0, 1, 2]), cfgs=cfgs)
+
+
 class Flow:
     """handle-free workflow: bodies[i] = Tm of task t<i>, limits[i] = None | list | dict"""
 
-    def __init__(self, bodies, limits, root_arg):
+    def __init__(self, bodies, limits, root_arg, cfgs=None):
         self.bodies = bodies
         self.limits = limits
         self.root_arg = root_arg
+        self.cfgs = cfgs                  # explicit limit configurations [(name, {resource: n})] instead of the default ones
 
     def tbl(self):
         return [[i, tm_sx(b)] for i, b in enumerate(self.bodies)]
 
     def to_json(self):
-        return dict(kind="flow", bodies=self.bodies, limits=self.limits, root_arg=self.root_arg)
+        return dict(kind="flow", bodies=self.bodies, limits=self.limits, root_arg=self.root_arg, cfgs=self.cfgs)
 
     def module_text(self, ns):
         out = ["from redun import task", "from redun.scheduler import cond, fork_thread", ""]
@@ -340,7 +367,7 @@ def canon(x):
 
 
 def read_rows(sched, log, task_ids, handle_ids):
-    from redun.backends.db import Argument, CallEdge, CallNode
+    from redun.backends.db import Argument, CallEdge, CallNode, Job
     ab = Abs(log, sched, task_ids, handle_ids)
     ses = sched.backend.session
     rows = set()
@@ -353,7 +380,15 @@ def read_rows(sched, log, task_ids, handle_ids):
     # the digests themselves (equal pre-images up to the order of children must have equal digests: that is what
     # sorted() in hash_call_node is for); compared between runs only
     digests = {"N" + cn.call_hash for cn in ses.query(CallNode).all()} | {"A" + a.arg_hash for a in ses.query(Argument).all()}
-    return rows, digests
+    # Job rows: per call hash, how many jobs ended with it and how many of them were not served from a cache / a twin
+    # (which duplicate is the cached one may differ between schedules; how many ran may not); compared between runs only
+    cnt = {}
+    for j in ses.query(Job).all():
+        if j.call_hash:
+            k = (sx(ab.h(j.call_hash)), bool(j.cached))
+            cnt[k] = cnt.get(k, 0) + 1
+    jobs = {"J %s cached=%s x%d" % (h, c, n) for (h, c), n in cnt.items()}
+    return rows, digests, jobs
 
 
 def model_rows(reply):
@@ -396,10 +431,10 @@ def run_once(env, expr_fn, limits_cfg, ctl, task_ids, handle_ids, taps=None):
         status, payload = ctl.run(sched, expr_fn())
         if status == "ok":
             val = "i%d" % payload if isinstance(payload, int) and not isinstance(payload, bool) else "?" + type(payload).__name__
-            rows, obs["digests"] = read_rows(sched, log, task_ids(), handle_ids)
+            rows, obs["digests"], obs["jobs"] = read_rows(sched, log, task_ids(), handle_ids)
         else:
             val = status + ":" + (type(payload).__name__ if status == "err" else str(payload)[:60])
-            rows, obs["digests"] = set(), set()
+            rows, obs["digests"], obs["jobs"] = set(), set(), set()
         close_sched(sched)
     os.remove(path)
     return status, val, rows, obs
@@ -486,12 +521,12 @@ def explore(ctx, env, label, kind, spec_json, expr_fn, task_ids, handle_ids, mod
             return rec, ctl.choices
         n0 = len(runs)
         for _ in enumerate_schedules(run_with, cap):
-            if ctx.elapsed() > HARD_STOP[ctx.tier] and len(runs) - n0 >= 2:
+            if (cpu() > HARD_STOP[ctx.tier] or ctx.elapsed() > HARD_WALL[ctx.tier]) and len(runs) - n0 >= 2:
                 break
-        exhausted = len(runs) - n0 < cap and ctx.elapsed() <= HARD_STOP[ctx.tier]
+        exhausted = len(runs) - n0 < cap and not (cpu() > HARD_STOP[ctx.tier] or ctx.elapsed() > HARD_WALL[ctx.tier])
         if not exhausted:
             for k in range(nrandom):
-                if ctx.elapsed() > HARD_STOP[ctx.tier]:
+                if (cpu() > HARD_STOP[ctx.tier] or ctx.elapsed() > HARD_WALL[ctx.tier]):
                     break
                 ctl = make_ctl(seed=ctx.rng.randrange(1 << 30))
                 status, val, rows, obs = run_once(env, expr_fn, cfg, ctl, task_ids, handle_ids)
@@ -527,17 +562,21 @@ def finish_explore(ctx, label, kind, spec_json, runs, pending, replies, classify
             only_m = sorted(rec["model_rows"] - rec["rows"])[:3]
             only_r = sorted(rec["rows"] - rec["model_rows"])[:3]
             ctx.mismatch("recorded call graph differs from the model", case=case, model=only_m, impl=only_r)
-        if rec["value"] != base["value"] or rec["rows"] != base["rows"] or rec["obs"]["digests"] != base["obs"]["digests"]:
+        if (rec["value"] != base["value"] or rec["rows"] != base["rows"] or rec["obs"]["digests"] != base["obs"]["digests"]
+                or rec["obs"]["jobs"] != base["obs"]["jobs"]):
             # a difference both of whose sides the model predicts (from the observed entry order / forked-job state) is one
             # of the recorded findings; anything else is new
             explained = (rec["rows"] == rec["model_rows"] and base["rows"] == base["model_rows"] and rec["rows"] != base["rows"])
             sig = classify(base, rec) if explained else SIG_NEW
             ctx.violation(sig, "the same workflow records a different %s under another completion order / limit configuration"
                           % ("value" if rec["value"] != base["value"] else ("call graph" if rec["rows"] != base["rows"] else
-                                                                                  "set of call/argument hash digests for the same pre-images")),
+                             ("set of call/argument hash digests for the same pre-images" if rec["obs"]["digests"] != base["obs"]["digests"]
+                              else "number of executed (non-cached) jobs per call"))),
                           case=dict(case, other=dict(limits=base["limits"], schedule=base["schedule"])),
-                          expected=dict(value=base["value"], rows_only_there=sorted(base["rows"] - rec["rows"])[:3]),
-                          actual=dict(value=rec["value"], rows_only_here=sorted(rec["rows"] - base["rows"])[:3]), kind="schedule")
+                          expected=dict(value=base["value"], rows_only_there=sorted(base["rows"] - rec["rows"])[:3],
+                                        jobs_only_there=sorted(base["obs"]["jobs"] - rec["obs"]["jobs"])[:3]),
+                          actual=dict(value=rec["value"], rows_only_here=sorted(rec["rows"] - base["rows"])[:3],
+                                      jobs_only_here=sorted(rec["obs"]["jobs"] - base["obs"]["jobs"])[:3]), kind="schedule")
     return runs
 
 
@@ -552,8 +591,8 @@ def check_flow(ctx, env, flow, label, thorough, corpus=False):
 
     q = "graph " + sx([Raw("tbl")] + flow.tbl()) + " " + sx([Raw("root"), 0, flow.root_arg])
     return explore(ctx, env, label, "handle-free", flow.to_json(), lambda: mod.t0(flow.root_arg), task_ids, {},
-                   lambda obs: q, limit_configs(ctx.rng, thorough, flow.limits)[:(2 if corpus and not thorough else 9)],
-                   cap=(60 if thorough else (8 if corpus else 14)), nrandom=(12 if thorough else (0 if corpus else 4)),
+                   lambda obs: q, (flow.cfgs or limit_configs(ctx.rng, thorough, flow.limits)[:(2 if corpus and not thorough else 9)]),
+                   cap=(60 if thorough else (8 if corpus or flow.cfgs else 14)), nrandom=(12 if thorough else (0 if corpus or flow.cfgs else 4)),
                    classify=lambda a, b: SIG_NEW)
 
 
@@ -752,6 +791,10 @@ def corpus_flows():
                                 [None, ["r0"], ["r0"]], 1),
         # the same call through two different expressions under one parent: main() = [work(1), work(ident(1))]
         "twin-siblings": Flow([("add", C(1, A), C(1, C(2, A))), ("add", A, L(10)), A], [None, None, None], 1),
+        # twins f(t) / f(ident(t)) that both wait for resource r0 behind two holder jobs and are released one after the other
+        "parked-twins": Flow([("add", ("add", C(2, L(20)), C(2, L(21))), ("add", C(1, A), C(1, C(3, A)))), ("add", A, L(10)), A, A],
+                             [None, ["r0"], ["r0"], None], 1,
+                             cfgs=[("unlimited", {r: 100 for r in RES})] + [("r0=%d" % k, dict({r: 100 for r in RES}, r0=k)) for k in (2, 3, 1)]),
         "deep": Flow([C(1, C(2, C(3, A))), ("add", A, C(2, A)), ("cond", A, C(3, A), L(4)), ("add", A, L(1))],
                      [["g"], ["g"], ["g"], ["g"]], 1),
     }
@@ -779,7 +822,7 @@ def run(ctx):
     env = Env()
     ctx.batch = Batch(ctx)
     thorough = ctx.tier == "thorough"
-    budget = 42 if ctx.tier == "quick" else 480
+    budget = 19 if ctx.tier == "quick" else 300          # CPU seconds of this process (time.process_time)
     try:
         t_start = ctx.elapsed()
         recount, hf_re = probe_recount(ctx, env)
@@ -795,11 +838,14 @@ def run(ctx):
         ctx.note("build+audit %.0fs, corpus %.0fs" % (t_start, ctx.elapsed() - t_start))
         rng = ctx.rng
         k = 0
-        while ctx.elapsed() < budget and k < ctx.n(400, 4000):
+        while cpu() < budget and ctx.elapsed() < HARD_WALL[ctx.tier] and k < ctx.n(400, 4000):
             r = rng.random()
             if r < 0.68:
                 mode = rng.random()
-                check_flow(ctx, env, gen_flow(rng, serial=rng.random() < 0.3, shared=mode < 0.3, twin=0.3 <= mode < 0.55), "flow%d" % k, thorough)
+                if mode > 0.85:
+                    check_flow(ctx, env, gen_parked_twins(rng), "flow%d" % k, thorough)
+                else:
+                    check_flow(ctx, env, gen_flow(rng, serial=rng.random() < 0.3, shared=mode < 0.3, twin=0.3 <= mode < 0.55), "flow%d" % k, thorough)
             elif r < 0.88:
                 check_hflow(ctx, env, gen_hflow(rng), "hflow%d" % k, thorough, recount)
             else:
@@ -830,7 +876,8 @@ def replay(ctx, case):
         recount, _ = probe_recount(ctx, env)
         ctx.batch = Batch(ctx)
         if spec.get("kind") == "flow":
-            check_flow(ctx, env, Flow([tup(b) for b in spec["bodies"]], spec["limits"], spec["root_arg"]), "replay", True)
+            cfgs = [(c[0], c[1]) for c in spec["cfgs"]] if spec.get("cfgs") else None
+            check_flow(ctx, env, Flow([tup(b) for b in spec["bodies"]], spec["limits"], spec["root_arg"], cfgs=cfgs), "replay", True)
         elif spec.get("kind") == "handles":
             lanes = [dict(l, src=(l["src"] if l["src"] == "shared" else tuple(l["src"]))) for l in spec["lanes"]]
             check_hflow(ctx, env, HFlow(lanes, spec["use_limits"], spec["slow_limits"]), "replay", True, recount)
